@@ -208,6 +208,8 @@ def binomial_spec(count, nobs, alpha):
 
 def run(ctx, chk, tier):
     ev = ctx.ev
+    own = chk.pid == "C04"    # as a prerequisite of C18 the host's own rule text, explanation and assumptions stay
+    saved = (getattr(chk, "rule_text", ""), getattr(chk, "explanation", ""), list(getattr(chk, "assumptions", []) or []))
     chk.rule_text = ("one obligation per metric function / alias / ConfusionMatrix method: its value term (straight-line code, symbolic matrix) "
                      "against the tabled definition; non-trivial = term mentions at least one matrix cell")
     chk.explanation = ("Every function of metrics.py and utils.binomial_ci is straight-line; global value numbering gives each a closed term over the "
@@ -217,6 +219,8 @@ def run(ctx, chk, tier):
     chk.trusted |= {"numpy.divide(out=full_like(nan), where=) is a guarded quotient", "basic indexing M[...,i,j]", "scipy.stats.norm.isf monotone decreasing",
                     "sum over axes (-1,-2) of a (...,2,2) array is the sum of its four cells; trace likewise"}
     chk.assumptions = ["matrix entries are non-negative", "dtype/overflow effects (int64 wrap in products) are outside the model"]
+    if not own:
+        chk.rule_text, chk.explanation, chk.assumptions = saved
     c = cells(ev)
     ident = binary_identities(ev)
 
